@@ -92,9 +92,6 @@ func probe(a arg) (string, string) {
 		if cls == expRejectBasicDisabled && !errors.Is(err, date.ErrBasicFormatDisabled) {
 			return "basic_disabled_wrong_error", fmt.Sprintf("%q with RuleDisableBasic: %v is not ErrBasicFormatDisabled", in, err)
 		}
-		if cls == expReject && a.Rule&int(date.RuleDisableBasic) == 0 && errors.Is(err, date.ErrBasicFormatDisabled) {
-			return "basic_disabled_error_without_rule", fmt.Sprintf("%q rule=0: %v", in, err)
-		}
 	}
 	return "", ""
 }
